@@ -44,7 +44,9 @@ def run(pid, tier):
     o.extra['events_by_kind'] = kinds
     if pid == 'C01':
         import zig
+        import quantile
         zig.collect(o, pid, tier, toy=False)
+        quantile.collect(o, pid, tier)
         w = [json.loads(x) for x in lines]
         same = sum(1 for e in w if e.get('wa') == e.get('wb'))
         o.extra['wire_events'] = len(w); o.extra['judged_same_word_count'] = same
@@ -60,7 +62,10 @@ def run(pid, tier):
     if pid == 'C01':
         o.assumptions = [
             'ziggurat part (StandardNormal, Exp1): tables against the structural equations (ZigTables.tla) and executions against the ZIGNOR automaton (TraceZig.tla: layer, sign, word count, result region, tail sign), exactly as for C06',
-            'ONLY the composition layer is decided otherwise: ChiSquared, StudentT, FisherF, Pert, Exp, Gamma(shape <= 1), Normal(0,1) are the documented functions of the crate\'s own primitives '
+            'inverse-CDF samplers (Cauchy, Pareto, Weibull, Gumbel, Frechet, Triangular): the LAW is decided at the anchors of spec/QuantileTable.tla (22 dyadic parameter points x 9 probabilities '
+            '2^-20 .. 1-2^-20 x f32/f64) as an exact ticket count against the documented CDF bracketed at x(1 -/+ 2^-20), resolution two steps of the uniform draw; the table itself is mpmath output '
+            '(tools/gen_quantile_table.py, 60 digits) whose order/median sanity TLC checks; f64 counts rest on monotonicity inside each half of the word range, checked on ~150 sorted words per half',
+            'ONLY the composition layer is decided for the remaining families: ChiSquared, StudentT, FisherF, Pert, Exp, Gamma(shape <= 1), Normal(0,1) are the documented functions of the crate\'s own primitives '
             '(StandardNormal, Exp1, Gamma with shape > 1, Beta) evaluated with the public API on a clone of the stream',
             'NOT decided: the laws of the primitives themselves (ziggurat: structure only, C06; Marsaglia-Tsang, Cheng BB/BC, Michael-Schucany-Haas, the inverse-CDF one-liners) and of every family not listed; '
             'no density, CDF or tail probability is evaluated anywhere (TLC cannot; DESIGN 3)',
